@@ -9,6 +9,7 @@ CONSTANTS
   RuleN = 0
   HistN = 12
   CoefN = 12
+  QHistN = 2
   EqN = 0
 INIT Init
 NEXT Next
